@@ -179,6 +179,7 @@ def scratch_system():
     if _SYS is None:
         from pydoctor import model
         system = model.System()
+        system.options.verbosity = 0      # as the command line without -v/-q: only warnings (thresh <= 0) are printed
         system.options.docformat = "epytext"
         b = system.systemBuilder(system)
         b.addModuleString("def f(a, b=1, *args, **kw):\n    pass\nclass K:\n    def __init__(self, a, b=2):\n        pass\n    def meth(self):\n        pass\nx = 1\n", modname="m")
@@ -821,6 +822,9 @@ class DocGen:
                 arg = self.rng.choice(["ValueError", "KeyError"] if k == "raise" else ["RuntimeWarning", "UserWarning"])
             elif k in ("ivar", "cvar", "var"):
                 arg = self.rng.choice(["zz", "yy", "ww"])
+                if self.rng.random() < 0.15:
+                    # the documented name is defined further down by a method / a function / a class
+                    arg = {"class": "meth", "module": self.rng.choice(["f", "K"])}.get(owner, arg)
                 if ("v", arg) in used_args:
                     continue
                 used_args.add(("v", arg))
@@ -835,6 +839,8 @@ class DocGen:
                 fld["lead"] = self.rng.choice(["-1", "--verbose", ":-)", "::", "-x", ":", "-0.5"])
             if self.rng.random() < 0.12:
                 fld["aligned"] = True
+            if k in ("return", "yield") and self.rng.random() < 0.35:
+                fld["freeform"] = True      # numpy: free text instead of "type / description", with a colon inside
             if k in ("note", "see", "todo", "custom", "return", "raise", "param", "keyword") and self.rng.random() < 0.18:
                 # the field's first paragraph wraps, ends with `::`, a literal block and one more paragraph follow
                 fld["literal"] = self.block_lines()
@@ -853,10 +859,13 @@ class DocGen:
         owner = self.rng.choice(["function", "function", "function", "class", "class", "module", "module", "property", "variable"])
         self.nested_markup = False
         body = [self.para()] + self.blocks(self.rng.choice([0, 1, 1, 2, 3, 4]))
+        if self.rng.random() < 0.08:
+            # the docstring is one section (title first, no paragraph before it), sometimes followed by a second one
+            body = [self.section(0)] + ([self.section(0)] if self.rng.random() < 0.3 else [])
         r = self.rng.random()
-        if r < 0.04:
+        if r < 0.04 and body[0][0] == "para":
             body[0][1].append(("code2", "a  b"))       # inline code with a run of two blanks
-        elif r < 0.06:
+        elif r < 0.06 and body[0][0] == "para":
             body[0][1].append(("w", "10\u00a0EUR"))    # a no-break space in the text
         doc = {"owner": owner, "body": body, "fields": self.fields(owner),
                "field_perm": self.rng.randrange(1 << 30) if self.rng.random() < 0.4 else None,
@@ -1216,7 +1225,7 @@ class Ser:
         groups = [("param", "Args", "Parameters"), ("keyword", "Keyword Args", "Other Parameters"), ("return", "Returns", "Returns"),
                   ("yield", "Yields", "Yields"), ("raise", "Raises", "Raises"), ("warn", "Warns", "Warns"),
                   ("ivar", "Attributes", "Attributes"), ("cvar", "Attributes", "Attributes"), ("var", "Attributes", "Attributes"),
-                  ("note", "Note", "Notes"), ("todo", "Todo", "Todo")]
+                  ("note", "Note", "Notes"), ("todo", "Todo", "Todo"), ("see", "See Also", "See Also")]
         done = set()
         g = self.fmt == "google"
         for kind, gname, nname in groups:
@@ -1228,7 +1237,7 @@ class Ser:
             if not fs:
                 continue
             done.add(name)
-            if kind in ("note", "todo", "return", "yield"):
+            if kind in ("note", "todo", "return", "yield", "see"):
                 fs = fs[:1]
             lines.append(name + ":" if g else name)
             if not g:
@@ -1244,11 +1253,25 @@ class Ser:
                     lines.append(("    %s (%s):" % (f["arg"], f["type"])) if g else ("%s : %s" % (f["arg"], f["type"])))
                     exp.append(e)
                     continue
-                if kind in ("note", "todo"):
+                if kind == "see" and not g:
+                    # numpydoc See Also: a comma separated list of names, then an indented description shared by them
+                    lines.append("m.f, m.K")
+                    w.extend(["m.f", "m.K"])
+                    lines.extend(self.wrap(f["body"], "    ", "    ", w, no_colon=True))
+                    self.flags.add("numpy-see-also-names-and-description")
+                elif kind in ("note", "todo", "see"):
                     lines.extend(self.wrap(f["body"], "    " if g else "", "    " if g else "", w, no_colon=True))
                 elif kind in ("return", "yield"):
                     if g:
                         lines.extend(self.wrap(f["body"], "    " + (f["type"] + ": " if f["type"] else ""), "        ", w, no_colon=True))
+                    elif f.get("freeform"):
+                        # free-form text (no "type" line); one word of it ends with a colon
+                        body = [n if ":" not in self.inl(n)[0] else ("w", self.plain(n)) for n in f["body"]]
+                        # (words follow `dingonumber`: "text: word" alone would be numpy's own "name : type" syntax)
+                        body = body[:1] + [("w", "wallabyvalue:"), ("w", "dingonumber")] + body[1:] + [("w", "that"), ("w", "was"), ("w", "computed")]
+                        lines.extend(self.wrap(body, "", "", w, width=300))
+                        e["type"] = None
+                        self.flags.add("numpy-free-form-returns-with-colon")
                     else:
                         lines.append(f["type"] or "object")
                         e["type"] = f["type"] or "object"
@@ -1455,6 +1478,7 @@ def render_doc(src: str, fmt: str, full: str) -> Dict[str, Any]:
     res: Dict[str, Any] = {"attrs": {}}
     with contextlib.redirect_stdout(buf):
         system = model.System()
+        system.options.verbosity = 0      # as the command line without -v/-q: only warnings (thresh <= 0) are printed
         system.options.docformat = fmt
         b = system.systemBuilder(system)
         b.addModuleString(src, modname="m")
@@ -1473,6 +1497,9 @@ def render_doc(src: str, fmt: str, full: str) -> Dict[str, Any]:
             except Exception as e:
                 res["to_stan_error"] = "%s: %s" % (type(e).__name__, e)
         for name, sub in getattr(obj, "contents", {}).items():
+            if name in ("meth", "f", "K") and full in ("m", "m.K"):
+                res["attrs"][name] = {"visible": bool(sub.isVisible), "kind": str(sub.kind),
+                                      "html": flatten(epydoc2stan.format_docstring(sub)), "type": None}
             if isinstance(sub, model.Attribute) and name in ("zz", "yy", "ww", "a", "b"):
                 t = epydoc2stan.type2stan(sub)
                 res["attrs"][name] = {"visible": bool(sub.isVisible), "kind": str(sub.kind),
@@ -1504,7 +1531,8 @@ def field_table(root: Node) -> Dict[str, List[List[str]]]:
 
 
 def in_admonition(kind, words, adm) -> bool:
-    return any(ws == words for t in ADMONITIONS.get(kind, []) for ws in adm.get(t, []))
+    strip = (lambda ws: [w.strip(",") for w in ws if w.strip(",")]) if kind == "see" else (lambda ws: ws)
+    return any(strip(ws) == strip(words) for t in ADMONITIONS.get(kind, []) for ws in adm.get(t, []))
 
 
 def oracle_document(ctx: Ctx, fmt: str, doc, ser, full: str, src: str, r) -> None:
@@ -1536,7 +1564,10 @@ def oracle_document(ctx: Ctx, fmt: str, doc, ser, full: str, src: str, r) -> Non
     if shown_words != out.words:
         i = next((k for k, (a, b) in enumerate(zip(shown_words, out.words)) if a != b), min(len(shown_words), len(out.words)))
         kind = "lost" if len(shown_words) < len(out.words) else ("added" if len(shown_words) > len(out.words) else "altered")
-        ctx.fail(f"description:words-{kind}:{fmt}", {**inp, "at": i, "shown": shown_words[max(0, i - 3):i + 4], "intended": out.words[max(0, i - 3):i + 4]},
+        sig = f"description:words-{kind}:{fmt}"
+        if fmt == "restructuredtext" and i == 0 and doc["body"][0][0] == "section" and kind == "lost":
+            sig = "rst:lone-section-title-dropped"      # the docstring starts with a section title: docutils makes it the document title
+        ctx.fail(sig, {**inp, "at": i, "shown": shown_words[max(0, i - 3):i + 4], "intended": out.words[max(0, i - 3):i + 4]},
                  f"{fmt}: description words differ at word {i}: shown {shown_words[max(0, i - 2):i + 3]} intended {out.words[max(0, i - 2):i + 3]}")
     # 2. blocks, character for character
     pres = find_all(root, lambda n: n.tag == "pre", stop=is_field)
@@ -1580,7 +1611,7 @@ def oracle_document(ctx: Ctx, fmt: str, doc, ser, full: str, src: str, r) -> Non
                 continue
             if a and a["visible"] and text_of(dom(a["html"])).split() == words:
                 where = "attribute"
-                if f["type"] and (a["type"] is None or text_of(dom(a["type"])).split() != [f["type"]]):
+                if f["type"] and arg not in ("meth", "f", "K") and (a["type"] is None or text_of(dom(a["type"])).split() != [f["type"]]):
                     ctx.fail(f"field:type-of-variable-not-shown:{fmt}", {**inp, "field": [k, arg]}, "type of a documented variable is not shown")
         else:
             altered = None
@@ -1620,7 +1651,8 @@ def oracle_document(ctx: Ctx, fmt: str, doc, ser, full: str, src: str, r) -> Non
             if where is None and altered is not None and any(g["words"] == altered[1] for g in twins):
                 altered = None          # the row is the other field of the same name: this one is not displayed at all
             if where is None and altered is not None and not in_admonition(k, words, adm):
-                ctx.fail(f"field:text-altered:{k}:{fmt}", {**inp, "field": [k, arg, words], "shown": altered[1]},
+                merged = fmt == "numpy" and "wallabyvaluedingonumber" in altered[1] and "wallabyvalue:" in words
+                ctx.fail("numpy:free-form-returns-colon-merges-words" if merged else f"field:text-altered:{k}:{fmt}", {**inp, "field": [k, arg, words], "shown": altered[1]},
                          f"{fmt}: the entry of field {f['tag']} {arg or ''} under '{altered[0]}' does not show the field's own words")
                 ctx.count("field:%s:%s:ALTERED" % (k, owner_kind))
                 continue
@@ -1632,9 +1664,16 @@ def oracle_document(ctx: Ctx, fmt: str, doc, ser, full: str, src: str, r) -> Non
             if rep:
                 where = "reported"
         ctx.count("field:%s:%s:%s" % (k, owner_kind, (where or "DROPPED").split(":")[0]))
-        if where is None and arg and any(g is not f and g["kind"] == k and g["arg"] == arg for g in ser["fields"]):
+        if where is None and k in ("ivar", "cvar", "var") and arg in ("meth", "f", "K"):
+            ctx.fail("field:var-naming-method-property-or-class-silently-dropped", {**inp, "field": [k, arg, words], "reports": r["reports"][:5]},
+                     f"{fmt}: field {f['tag']} {arg} documents a name that the {owner_kind} body defines as a method / function / class: "
+                     "its text is shown nowhere and nothing is reported")
+        elif where is None and arg and any(g is not f and g["kind"] == k and g["arg"] == arg for g in ser["fields"]):
             ctx.fail(f"field:duplicate-{k}-first-text-silently-dropped", {**inp, "field": [k, arg, words], "reports": r["reports"][:5]},
                      f"{fmt}: {k} {arg} is documented twice; the text of one of the two fields is shown nowhere and no duplicate is reported")
+        elif where is None and k == "see" and fmt == "numpy":
+            ctx.fail("numpy:see-also-description-dropped", {**inp, "field": [k, arg, words], "see-also": adm.get("See Also"), "reports": r["reports"][:5]},
+                     "numpy: the description under a comma separated name list of a See Also section is shown nowhere and nothing is reported")
         elif where is None:
             kk = "var" if k in ("ivar", "cvar", "var") else k
             ctx.fail(f"field:{kk}-in-{owner_kind}-silently-dropped", {**inp, "field": [k, arg, words], "reports": r["reports"][:5]},
@@ -1670,6 +1709,7 @@ def impl_field(tag: str, kind: str, has_arg: bool, exists: bool, known: bool) ->
     buf = io.StringIO()
     with contextlib.redirect_stdout(buf):
         system = model.System()
+        system.options.verbosity = 0      # as the command line without -v/-q: only warnings (thresh <= 0) are printed
         system.options.docformat = "epytext"
         b = system.systemBuilder(system)
         b.addModuleString(src, modname="m")
@@ -1777,6 +1817,7 @@ def impl_pair(desc_tag: str, type_tag: str, heading: str, events: List[str], fmt
     buf = io.StringIO()
     with contextlib.redirect_stdout(buf):
         system = model.System()
+        system.options.verbosity = 0      # as the command line without -v/-q: only warnings (thresh <= 0) are printed
         system.options.docformat = fmt
         b = system.systemBuilder(system)
         b.addModuleString(src, modname="m")
@@ -1936,6 +1977,7 @@ def impl_params(sig, events: List[Tuple[str, int, int]], fmt: str = "epytext") -
     buf = io.StringIO()
     with contextlib.redirect_stdout(buf):
         system = model.System()
+        system.options.verbosity = 0      # as the command line without -v/-q: only warnings (thresh <= 0) are printed
         system.options.docformat = fmt
         b = system.systemBuilder(system)
         b.addModuleString(src, modname="m")
@@ -2038,6 +2080,7 @@ def impl_property(has_body: bool, fields: List[Tuple[str, int, bool]]) -> str:
     src = 'class C:\n    @property\n    def p(self):\n        """\n%s%s\n        """\n        return 1\n' % ("        Body.\n\n" if has_body else "", lines)
     with contextlib.redirect_stdout(io.StringIO()):
         system = model.System()
+        system.options.verbosity = 0      # as the command line without -v/-q: only warnings (thresh <= 0) are printed
         system.options.docformat = "epytext"
         b = system.systemBuilder(system)
         b.addModuleString(src, modname="m")
@@ -2094,6 +2137,7 @@ def impl_inherited_property(has_body: bool, fields: List[Tuple[str, int, bool]])
            'class S(B):\n    @property\n    def p(self):\n        return 2\n') % ("        Body.\n\n" if has_body else "", lines)
     with contextlib.redirect_stdout(io.StringIO()):
         system = model.System()
+        system.options.verbosity = 0      # as the command line without -v/-q: only warnings (thresh <= 0) are printed
         system.options.docformat = "epytext"
         b = system.systemBuilder(system)
         b.addModuleString(src, modname="m")
@@ -2158,6 +2202,7 @@ def impl_extract(fields: List[Tuple[str, Optional[int], int]]) -> str:
     buf = io.StringIO()
     with contextlib.redirect_stdout(buf):
         system = model.System()
+        system.options.verbosity = 0      # as the command line without -v/-q: only warnings (thresh <= 0) are printed
         system.options.docformat = "epytext"
         b = system.systemBuilder(system)
         b.addModuleString(src, modname="m")
@@ -2185,6 +2230,7 @@ def impl_showntype(own: List[int], ann: Optional[int]) -> str:
     src = "vv%s = None\n\"\"\"\nDoc.\n\n%s\"\"\"\n" % ((": ANN%d" % ann) if ann else "", fields)
     with contextlib.redirect_stdout(io.StringIO()):
         system = model.System()
+        system.options.verbosity = 0      # as the command line without -v/-q: only warnings (thresh <= 0) are printed
         system.options.docformat = "epytext"
         b = system.systemBuilder(system)
         b.addModuleString(src, modname="m")
@@ -2330,6 +2376,13 @@ def corpus_documents() -> List[Dict[str, Any]]:
     docs.append(dict(base, owner="property", inherit=True, return_tag="returns", body=[("para", W("The", "description"))], fields=[fld("return", typ="str", type_first=True)]))
     docs.append(dict(base, owner="function", inherit=True, body=[("para", W("The", "description"))], fields=[fld("param", "a", "int"), fld("return", typ="str")]))
     docs.append(dict(base, owner="variable", inherit=True, var_level="class", var_type="str", body=[("para", W("The", "description"))], fields=[fld("note")]))
+    # hunter round: a docstring that is one section; numpy See Also with description; numpy free-form Returns with a colon;
+    # a variable field naming a method / function / class of the body
+    docs.append(dict(base, owner="function", body=[("section", W("Zebratitle", "overview"), [("para", W("Bodyword", "one", "two"))], 0)], fields=[]))
+    docs.append(dict(base, owner="function", body=[("para", W("Doc"))], fields=[fld("see", body=W("Numbatdescription", "shared", "by", "both")),
+                                                                               fld("return", freeform=True, body=W("The", "computed", "result"))]))
+    docs.append(dict(base, owner="class", body=[("para", W("Doc"))], fields=[fld("ivar", "meth", body=W("Platypusvolume", "in", "litres"))]))
+    docs.append(dict(base, owner="module", body=[("para", W("Doc"))], fields=[fld("var", "f", body=W("Documented", "as", "variable")), fld("var", "K", body=W("Also", "a", "class"))]))
     for level in ("module", "class", "instance"):
         docs.append(dict(base, owner="variable", var_level=level, var_type="str", body=[("para", W("The", "description"))], fields=[fld("note")]))
     return docs
@@ -2374,6 +2427,7 @@ def stream_corpus_sources(ctx: Ctx) -> None:
             from pydoctor.stanutils import flatten
             with contextlib.redirect_stdout(io.StringIO()):
                 system = model.System()
+                system.options.verbosity = 0      # as the command line without -v/-q: only warnings (thresh <= 0) are printed
                 system.options.docformat = c["fmt"]
                 b = system.systemBuilder(system)
                 b.addModuleString(c["src"], modname="m")
